@@ -27,7 +27,14 @@ def from_patch(prop, name, patch, rule, construct, note=""):
             elif ln.startswith("-"): old.append(ln[1:])
             elif ln.startswith(" "): old.append(ln[1:]); new.append(ln[1:])
     flush()
-    M.append(dict(property=prop, name=name, file="", find="", replace="", edits=edits, expect_rule=rule, expect_construct=construct, note=note))
+    if rule is None:
+        M.append(dict(property=prop, name=name, file="", find="", replace="", edits=edits, expect_none=True, expect_rule="", expect_construct="", note=note))
+    else:
+        M.append(dict(property=prop, name=name, file="", find="", replace="", edits=edits, expect_rule=rule, expect_construct=construct, note=note))
+
+def benign_patch(prop, name, patch, note=""):
+    """a behaviour-preserving refactor given as a patch: no rule of the property may fire"""
+    from_patch(prop, "benign-"+name, patch, None, None, note)
 
 # ---- C08
 m("C08","buy-drop-listing-owner-check","x/rns/keeper/msg_server_buy.go",
